@@ -18,7 +18,13 @@ type Group struct {
 	err    error
 	cancel func(error)
 	limit  int
+	once   onceObj
 }
+
+// onceObj stands for the sync.Once of the real Group that guards the first error.
+type onceObj struct{ _ byte }
+
+func (*onceObj) Enabled(vsched.Op, int) bool { return true }
 
 // WithContext mirrors errgroup.WithContext.
 func WithContext(ctx context.Context) (*Group, context.Context) {
@@ -51,7 +57,14 @@ func (g *Group) Go(f func() error) {
 		g.n++
 		x.Go("errgroup", func() {
 			defer func() { g.n-- }()
-			if err := f(); err != nil && g.err == nil {
+			err := f()
+			if err != nil {
+				// errOnce.Do of the real Group: a synchronisation visible to the scheduler (which of
+				// several failing threads records its error is decided here)
+				x.Point(vsched.OpLock, &g.once, 0)
+				x.Point(vsched.OpUnlock, &g.once, 0)
+			}
+			if err != nil && g.err == nil {
 				g.err = err
 				if g.cancel != nil {
 					g.cancel(err)
